@@ -33,6 +33,8 @@ import (
 type implT struct {
 	Deps   string // "i:d,d;…" as collected by getVarDependencies ("" when not applicable)
 	Order  string // "i,i,…" | "loop" | "err:…"
+	Regs   string // the init nodes Execute will run: "init@5,init@7,main" (VerifInitNodes; "" when not applicable)
+	Syms   string // sorted function symbols of the package scope
 	Log    string // labels, comma separated, "!error" appended when Eval returned an error
 	Stdout string
 	Err    string
@@ -102,6 +104,32 @@ func structural(src string) (deps, order string) {
 	return deps, order
 }
 
+// registration runs the hook VerifInitNodes on the one-file rendering: which function declarations
+// cfg collected as init nodes (in the order Execute runs them), which got a function symbol.
+func registration(src string) (regs, syms string) {
+	defer func() {
+		if r := recover(); r != nil {
+			regs, syms = "crash:"+common.FirstLine(fmt.Sprint(r)), "crash"
+		}
+	}()
+	i := interp.New(interp.Options{})
+	if err := i.Use(stdlib.Symbols); err != nil {
+		return "err", "err"
+	}
+	rs, ss, err := i.VerifInitNodes(src)
+	if err != nil {
+		return "err", "err"
+	}
+	regs, syms = strings.Join(rs, ","), strings.Join(ss, ",")
+	if regs == "" {
+		regs = "-"
+	}
+	if syms == "" {
+		syms = "-"
+	}
+	return regs, syms
+}
+
 // runTree runs the program in a fresh interpreter: Eval of the file, or EvalPath of the directory
 // (files under prog/), imported packages under the GOPATH of an in-memory file system.
 func runTree(c caseT, timeout time.Duration) (res common.YResult) {
@@ -157,6 +185,7 @@ func runImpl(c caseT) implT {
 	var im implT
 	if c.Mode != "dir" && len(c.Subs) == 0 {
 		im.Deps, im.Order = structural(forYaegi(c.tree()["main.go"]))
+		im.Regs, im.Syms = registration(forYaegi(c.tree()["main.go"]))
 	}
 	y := runTree(c, 10*time.Second)
 	im.Stdout = y.Stdout
@@ -327,7 +356,7 @@ func nontrivial(c caseT, ans map[string]string) bool {
 
 func main() {
 	run := common.NewRun("C15")
-	run.Res.Rule = "cases = generated packages (2–14 declarations: int/struct/method-value/blank variables, multi-value and paired declarations, variables without value, functions, functions with parameter, methods, function literals, shadowing locals, field keys, 0–2 init functions, main) built over a hidden acyclic order and declared in that order / slightly permuted / shuffled; 10% get one extra reference against the hidden order (cycles, self references); 25% are split over several files and loaded as a directory (importSrc); 20% import 1–4 generated packages forming a DAG; every initialiser logs its label and its operands, every init function and main log; non-trivial = at least three initialisation expressions and (a forward reference, or a class other than in-domain, or several packages); distinct = distinct protocol line + mode"
+	run.Res.Rule = "cases = generated packages (2–14 declarations: int/struct/method-value/blank variables, multi-value and paired declarations, variables without value, functions, functions with parameter, methods, function literals, shadowing locals, field keys, 0–3 init functions anywhere among them — in several files in directory mode —, main; 55% also declare 1–7 things that look like init functions and are not: methods named init with value / pointer receiver, functions Init, init_, initX, a function with a local variable init, a struct type with a field init, each logging when — and only when — main calls it after it logged itself) built over a hidden acyclic order and declared in that order / slightly permuted / shuffled; 10% get one extra reference against the hidden order (cycles, self references); 25% are split over several files and loaded as a directory (importSrc); 20% import 1–4 generated packages forming a DAG (each with its own init functions and look-alikes, half of them split over several files); every initialiser logs its label and its operands, every init function and main log; non-trivial = at least three initialisation expressions and (a forward reference, or a class other than in-domain, or several packages); distinct = distinct protocol line + mode"
 	defer run.Finish()
 	drv, err := common.StartDriver("C15")
 	if err != nil {
@@ -416,6 +445,11 @@ func main() {
 		if c.Mode != "dir" && len(c.Subs) == 0 && (im.Deps != ans["deps"] || im.Order != ans["yorder"]) {
 			modelOK = false
 		}
+		// registration of the init functions: compared whenever the file compiles (an `err` is the
+		// gta / cfg error the behavioural comparison already sees)
+		if c.Mode != "dir" && len(c.Subs) == 0 && im.Regs != "err" && (im.Regs != ans["regs"] || im.Syms != ans["syms"]) {
+			modelOK = false
+		}
 		same := sameBehaviour(im, rf)
 		why := ""
 		if len(c.Subs) > 0 {
@@ -437,8 +471,8 @@ func main() {
 			run.Res.Known = append(run.Res.Known, common.KnownReplay{ID: f.ID, Status: f.Status, What: f.What, StillFails: !same,
 				Detail: fmt.Sprintf("class=%s impl=%s ref=%s model=%s", class, im.Log, rf.Log, mlog)})
 			if !modelOK {
-				run.Disagree(common.Disagreement{Kind: "impl-vs-model", Input: c, Impl: im.Deps + " " + im.Order + " " + im.Log,
-					Model: ans["deps"] + " " + ans["yorder"] + " " + mlog, Note: "replay of " + f.ID})
+				run.Disagree(common.Disagreement{Kind: "impl-vs-model", Input: c, Impl: im.Deps + " " + im.Order + " " + im.Log + " regs=" + im.Regs + " syms=" + im.Syms,
+					Model: ans["deps"] + " " + ans["yorder"] + " " + mlog + " regs=" + ans["regs"] + " syms=" + ans["syms"], Note: "replay of " + f.ID})
 			}
 			if rf.Log != ans["glog"] {
 				run.Disagree(common.Disagreement{Kind: "spec-vs-ref", Input: c, Spec: ans["glog"], Ref: rf.Log, Note: "replay of " + f.ID})
@@ -478,8 +512,8 @@ func main() {
 		}
 		run.Sample(map[string]interface{}{"case": c, "class": class, "impl": im.Log, "model": mlog, "spec": ans["glog"], "ref": rf.Log}, 8)
 		if !modelOK {
-			run.Disagree(common.Disagreement{Kind: "impl-vs-model", Input: c, Impl: im.Deps + " " + im.Order + " " + im.Log + " " + im.Err,
-				Model: ans["deps"] + " " + ans["yorder"] + " " + mlog, Ref: rf.Log})
+			run.Disagree(common.Disagreement{Kind: "impl-vs-model", Input: c, Impl: im.Deps + " " + im.Order + " " + im.Log + " " + im.Err + " regs=" + im.Regs + " syms=" + im.Syms,
+				Model: ans["deps"] + " " + ans["yorder"] + " " + mlog + " regs=" + ans["regs"] + " syms=" + ans["syms"], Ref: rf.Log})
 		}
 		if rf.Log != ans["glog"] {
 			run.Disagree(common.Disagreement{Kind: "spec-vs-ref", Input: c, Spec: ans["glog"], Ref: rf.Log + " " + common.FirstLine(rf.Err)})
@@ -555,6 +589,36 @@ func features(c caseT) []string {
 	}
 	if c.Inits > 0 {
 		set["init-func"] = true
+	}
+	if c.Inits > 1 {
+		set["init-func-several"] = true
+	}
+	if c.Mode == "dir" && c.Inits > 1 {
+		fi := map[int]bool{}
+		for k, f := range c.mainFiles() {
+			for _, code := range f.Codes {
+				if code[0] == 'i' {
+					fi[k] = true
+				}
+			}
+		}
+		if len(fi) > 1 {
+			set["init-func-in-several-files"] = true
+		}
+	}
+	for _, l := range c.Looks {
+		set["look-"+l.Kind] = true
+	}
+	for _, sp := range c.Subs {
+		for _, l := range sp.Body.Looks {
+			set["imported-look-"+l.Kind] = true
+		}
+		if len(sp.Body.Files) > 0 {
+			set["imported-several-files"] = true
+		}
+		if sp.Body.Inits > 0 {
+			set["imported-init-func"] = true
+		}
 	}
 	var out []string
 	for k := range set {
